@@ -168,7 +168,7 @@ def r2(cx):
                     if not same: continue
                     te, fe = bool_edges(b.term, c)
                     absent = te if c.term.callee.name == "is_none" else fe
-                    if t.bb not in cfg.reach(absent[2]): guarded = True
+                    if t.bb not in cfg.after(absent): guarded = True
             cx.check(guarded, "C18.R2", "%s:%s:unwrap-of-Connection.%s" % (PKG, body.path, field), "%s %s" % (t.sp, body.path),
                      "Connection.%s is unwrapped without a presence test: connections built by the *_no_rw / with_address constructors leave it None (definite panic on that bridge mode)" % field,
                      note_ok="behind a presence test of Connection.%s" % field)
